@@ -67,6 +67,37 @@ def classify_atoms(info):
                 stale, stale_term = False, (a, b)
                 continue
         rest.append(c)
+    if stale is None:
+        # the comparison spelled on the parts of the elapsed time (`e.as_secs() > t || (e.as_secs() == t && e.subsec_nanos()
+        # > 0)`): decided by evaluation. E = the elapsed time, t = the one other quantity these conditions mention; the path
+        # is "stale" when its conditions hold exactly for E > t seconds at every probe around the boundary.
+        parts = [c for c in rest if any(x[0] == 't' and x[1] in ('dur_as_secs', 'dur_subsec_nanos') and 'systime_elapsed' in fmt(x) for x in psi.walk(c[0]))]
+        if parts:
+            els = {x[2][0] for c in parts for x in psi.walk(c[0]) if x[0] == 't' and x[1] in ('dur_as_secs', 'dur_subsec_nanos')}
+            thrs = set()
+            for c in parts:
+                if c[0][0] == 't' and len(c[0][2]) == 2:
+                    for side in c[0][2]:
+                        if isinstance(side, tuple) and 'systime_elapsed' not in fmt(side) and arith.const_num(side) is None:
+                            thrs.add(side)
+            if len(els) == 1 and len(thrs) == 1:
+                el, thr = els.pop(), thrs.pop()
+                verdicts = set()
+                for t_ in (0, 3, 8000):
+                    for d_ in (-10**9, -1, 0, 1, 10**9 - 1, 10**9, 10**9 + 1):
+                        e_ = t_ * 10**9 + d_
+                        if e_ < 0:
+                            continue
+                        env = {el: e_, thr: t_}
+                        hs = [arith.cond_holds(c, env) for c in parts]
+                        if any(h is None for h in hs):
+                            verdicts.add('?')
+                        elif all(hs):
+                            verdicts.add(e_ > t_ * 10**9)
+                if verdicts == {True} or verdicts == {False}:
+                    stale = verdicts.pop()
+                    stale_term = (el, T('dur_from_secs', thr))
+                    rest = [c for c in rest if c not in parts]
     return leap_leaf, leap_conds, future, stale, stale_term, rest
 
 
